@@ -36,6 +36,8 @@ func c03Setup(t *testing.T) *c03World {
 		"many":   net.ParseIP("192.122.190.12"),
 		"obfs4":  net.ParseIP("192.122.190.13"),
 		"prefix": net.ParseIP("192.122.190.14"),
+		"none6":  net.ParseIP("2001:48a8:687f:1::10"),
+		"many6":  net.ParseIP("2001:48a8:687f:1::12"),
 	}}
 	rng := kit.Rand("c03-regs")
 	add := func(name string, tt pb.TransportType, params interface{}) {
@@ -64,6 +66,10 @@ func c03Setup(t *testing.T) *c03World {
 	for _, id := range vAllPrefixIDs {
 		add("many", pb.TransportType_Prefix, vPrefixParams(id, false, prefix.DefaultFlush))
 	}
+	add("many6", pb.TransportType_Min, gen)
+	add("many6", pb.TransportType_Obfs4, gen)
+	add("many6", pb.TransportType_Prefix, vPrefixParams(prefix.GetLong, false, prefix.DefaultFlush))
+	add("many6", pb.TransportType_Prefix, vPrefixParams(prefix.OpenSSH2, false, prefix.DefaultFlush))
 	add("obfs4", pb.TransportType_Obfs4, gen)
 	add("prefix", pb.TransportType_Prefix, vPrefixParams(prefix.GetLong, false, prefix.DefaultFlush))
 	add("prefix", pb.TransportType_Prefix, vPrefixParams(prefix.Min, false, prefix.DefaultFlush))
@@ -99,7 +105,7 @@ var c03Lookalikes = [][]byte{
 
 func c03Generate(w *c03World, rng *rand.Rand, n int) []c03Probe {
 	var out []c03Probe
-	registries := []string{"none", "onemin", "many", "obfs4", "prefix"}
+	registries := []string{"none", "onemin", "many", "obfs4", "prefix", "none6", "many6"}
 	lengths := []int{0, 1, 31, 32, 33, 63, 64, 65, 69, 70, 71, 79, 80, 81, 84, 85, 86, 127, 4095, 4096, 4097, 8191, 8192, 8193, 16384}
 	randBytes := func(k int) []byte { b := make([]byte, k); rng.Read(b); return b }
 	cutsFor := func(data []byte, mode int) []int {
@@ -206,7 +212,19 @@ func c03Run(w *c03World, rec *kit.Rec, sh *c03Shared, p c03Probe) {
 	segs := c03Segments(p.Data, p.Cuts)
 	atEnd := kit.EndVirtualTimeout
 	local := kit.TCPAddr(w.ips[p.Registry].String(), 443)
-	remote := kit.TCPAddr("203.0.113.77", 40000)
+	// the peer's address varies with the probe (the handler's per-country / per-AS accounting depends on it);
+	// IPv6 phantoms are reached by IPv6 peers
+	h := 0
+	for _, b := range p.Data {
+		h = h*131 + int(b)
+	}
+	if h < 0 {
+		h = -h
+	}
+	remote := kit.TCPAddr(fmt.Sprintf("203.0.%d.%d", 113+h%3, 1+h%250), 40000+h%20000)
+	if w.ips[p.Registry].To4() == nil {
+		remote = kit.TCPAddr(fmt.Sprintf("2001:db8:%x::%x", h%5, 1+h%65000), 40000+h%20000)
+	}
 	switch p.End {
 	case "eof":
 		atEnd = kit.EndEOF
@@ -431,6 +449,16 @@ func TestVerifC03RealTCP(t *testing.T) {
 			probes = append(probes, probe{dst, "random-16384", rb(16384), true})
 		}
 	}
+	// peers that keep sending for the first four seconds (far more than any socket buffer holds): the station must keep
+	// reading, whatever other connections are doing at the same time (half of them run next to obfs4 handshakes that
+	// were damaged outside the mark, which the obfs4 library holds on to for a long time by design)
+	for i := 0; i < 6; i++ {
+		probes = append(probes, probe{"198.51.100.7:443", "stream", rb(4096), false})
+		r := regs[1] // obfs4
+		fl := append([]byte{}, r.flight...)
+		fl[len(fl)-5] ^= 0x10 // inside the MAC that ends the handshake: the mark is intact
+		probes = append(probes, probe{"198.51.100.7:443", "obfs4-damaged-mac", fl, false})
+	}
 	// the collector may run at any moment in a real station; here it runs every 50 ms while the probes overlap, so that
 	// anything the handler leaves to finalizers (descriptors, buffers) is finalized while other connections are live
 	gcStop := make(chan struct{})
@@ -461,7 +489,27 @@ func TestVerifC03RealTCP(t *testing.T) {
 				return
 			}
 			defer c.Close()
-			if p.pause && len(p.data) > 100 {
+			if p.kind == "stream" {
+				time.Sleep(700 * time.Millisecond) // the damaged handshakes are in the library's hands by now
+				chunk := make([]byte, 256<<10)
+				sent := len(p.data)
+				c.Write(p.data)
+				for time.Since(t0) < 4*time.Second {
+					c.SetWriteDeadline(time.Now().Add(3 * time.Second))
+					k, werr := c.Write(chunk)
+					sent += k
+					if werr != nil {
+						if kit.IsTimeout(werr) {
+							rec.Violation("realtcp:stopped-reading", "the station stopped reading from an unauthenticated connection before its deadline (a write of the peer blocked for 3 s)",
+								map[string]interface{}{"probe": label, "bytes_sent_before_the_stall": sent, "after_ms": time.Since(t0).Milliseconds()})
+						}
+						break
+					}
+					time.Sleep(20 * time.Millisecond)
+				}
+				c.SetWriteDeadline(time.Time{})
+				rec.Count("bytes_streamed_to_the_station", sent)
+			} else if p.pause && len(p.data) > 100 {
 				c.Write(p.data[:37])
 				time.Sleep(150 * time.Millisecond)
 				c.Write(p.data[37:])
@@ -469,6 +517,10 @@ func TestVerifC03RealTCP(t *testing.T) {
 				c.Write(p.data)
 			}
 			c.SetReadDeadline(time.Now().Add(45 * time.Second))
+			if p.kind == "obfs4-damaged-mac" {
+				// the obfs4 library keeps such a connection for 30-90 s by design: only "no early close, no bytes" is judged
+				c.SetReadDeadline(time.Now().Add(12 * time.Second))
+			}
 			buf := make([]byte, 4096)
 			got := 0
 			var rerr error
@@ -484,7 +536,9 @@ func TestVerifC03RealTCP(t *testing.T) {
 			if got > 0 {
 				rec.Violation("realtcp:wrote-to-unauthenticated-peer", "the station sent bytes to a connection that never presented a valid tag", map[string]interface{}{"probe": label, "bytes": got})
 			}
-			if kit.IsTimeout(rerr) {
+			if kit.IsTimeout(rerr) && p.kind == "obfs4-damaged-mac" {
+				rec.Count("damaged_obfs4_handshakes_still_held_after_12s", 1)
+			} else if kit.IsTimeout(rerr) {
 				rec.Inconclusive("the station had not closed the connection 45 s after connect", label)
 			} else if el < 5*time.Second {
 				rec.Violation("realtcp:closed-early", "the station closed (FIN/RST) an unauthenticated connection earlier than 5 s after the client started to connect",
